@@ -4,7 +4,8 @@
    Property theorems only; each is closed by a lemma proved in Proofs/.  Dec values are their
    10^18-scaled integers ("ulp" = 10^-18); floats are integers in units of 2^-1074.          *)
 From Comdex Require Import Lib.Base Lib.DecArith Lib.F64 Model.Accrual Model.AccrualFast Model.Pow Model.Rates Model.AccrualSites
-  Proofs.AccrualProofs Proofs.AccrualFastProofs Proofs.PowProofs Proofs.CmpSubaddProofs Proofs.RatesProofs Proofs.AccrualSitesProofs.
+  Proofs.AccrualProofs Proofs.AccrualFastProofs Proofs.PowProofs Proofs.CmpSubaddProofs Proofs.RatesProofs Proofs.AccrualSitesProofs
+  Model.AccrualPair Proofs.AccrualPairProofs.
 
 (* ============ (i) index accrual: CalculateLendReward / CalculateBorrowInterest ============ *)
 (* how the three lend functions reach the common step: negative elapsed time is an error, a
@@ -549,3 +550,122 @@ Example c18_sites_nonvacuous :
     = Ok (200000000000000000000, 200000000000000000000, 10000000000000000000, 1050000000000000000, 1010000000000000000) /\
   reserve_rate 100000000000000000 500000000000000000 200000000000000000 = Some 60000000000000000.
 Proof. vm_compute. repeat split. Qed.
+
+(* ============ the stability fee of an extended pair over time (Model/AccrualPair.v) ============ *)
+(* Over EVERY history of {later block, MsgCreate, MsgVaultInterestCalc, vault message, WasmUpdatePairsVault}
+   from the creation of the pair (any whitelisting / stable-mint flag, any initial fee), every accrual
+   that any step books on any vault - in the messages' CalculateVaultInterest and in the sweeps of the
+   fee update - is the value of CalculationOfRewards at the fee IN FORCE before the step, over a period
+   that starts no earlier than that fee came into force and no earlier than the vault was settled last
+   (so no second of a fee-less period is ever charged at a non-zero rate, and no period twice), on a
+   principal within the vault's debt - EXCEPT on vaults of the class kf_C18_2 (finding C18-F2).
+   [calc] is arbitrary.  Premise ps_intr = false: no sweep of the history was cut short by an error of
+   CalculationOfRewards (then the remaining vaults keep their stamps while the pair is re-stamped;
+   with calc = the real function that needs a non-finite float result). *)
+Theorem c18_pair_charges_legit : forall calc ops now h wl stable fee,
+  1 <= h -> 0 <= fee -> Forall pop_wf ops ->
+  ps_intr (fst (prun calc (pinit now h wl stable fee) ops)) = false ->
+  Forall (fun e => Forall (fun c => kf_C18_2 c = false -> charge_legit calc (fst e) c) (snd e))
+         (snd (prun calc (pinit now h wl stable fee) ops)).
+Proof. intros. apply prun_legit; auto. apply pinit_inv; assumption. Qed.
+Print Assumptions c18_pair_charges_legit.
+
+(* a legitimate accrual while the fee in force is zero is the accrual at rate zero: nothing *)
+Theorem c18_pair_zero_fee : forall calc, (forall now bt p x, calc now bt p 0 = Ok x -> x = 0) ->
+  forall s c, charge_legit calc s c -> ps_fee s = 0 -> ch_amt c = 0.
+Proof. exact legit_zero_fee. Qed.
+Print Assumptions c18_pair_zero_fee.
+
+(* zero over zero time: no time since the vault was settled, or since the fee in force came into force
+   (the block in which the fee comes back): nothing *)
+Theorem c18_pair_zero_time : forall calc, (forall t p r x, calc t t p r = Ok x -> x = 0) ->
+  forall s c, charge_legit calc s c -> ps_fee s <> 0 ->
+  ps_now s <= Z.max (pv_cov (ch_pre c)) (ps_tchg s) -> ch_amt c = 0.
+Proof. exact legit_zero_time. Qed.
+Print Assumptions c18_pair_zero_time.
+
+(* the executable bound the correspondence run judges on the implementation's observations follows from
+   legitimacy under the laws of the accrual function (zero over zero time, zero at rate zero,
+   non-negative, monotone in the period and the principal: c18_cmp_zero_time / _zero_rate / _nonneg /
+   _monotone for the real one) *)
+Theorem c18_pair_bound : forall calc,
+  (forall t p r x, calc t t p r = Ok x -> x = 0) ->
+  (forall now bt p x, calc now bt p 0 = Ok x -> x = 0) ->
+  (forall now bt p r x, calc now bt p r = Ok x -> 0 <= x) ->
+  (forall now bt bt' p p' r x b, bt' <= bt -> bt <= now -> p <= p' ->
+     calc now bt p r = Ok x -> calc now bt' p' r = Ok b -> x <= b) ->
+  forall s c, charge_legit calc s c -> 0 <= pv_intacc (ch_pre c) ->
+  holds_C18_pair_charge calc (ps_now s) (ps_fee s) (ps_tchg s) (pv_cov (ch_pre c))
+    (pv_debt (ch_pre c) + pv_intacc (ch_pre c)) (ch_amt c) = true.
+Proof. exact legit_holds. Qed.
+Print Assumptions c18_pair_bound.
+
+(* a stand-in accrual function for the examples: simple interest, error on negative elapsed time *)
+Definition c18_wcalc (now bt p r : Z) : outcome Z :=
+  if now <? bt then Err 1 else Ok (Z.max 0 p * Z.max 0 r * (now - bt)).
+Definition c18_f2_init := pinit 1000 20 true false 20000000000000000.
+(* the witness of C18-F2 (harness case 0): a vault at 2 %, the fee switched off after a day, a deposit
+   100 days later, the fee switched on again 265 days after that, MsgVaultInterestCalc in the same block *)
+Definition c18_f2_history : list pop :=
+  [OCreate 200000000; OAdvance 86400 10; OSetFee 0; OAdvance 8640000 1000; OTouch 0 0;
+   OAdvance 22896000 1000; OSetFee 20000000000000000; OCalc 0].
+Definition c18_f2_log := Eval vm_compute in snd (prun c18_wcalc c18_f2_init c18_f2_history).
+Definition c18_f2_state := Eval vm_compute in fst (last c18_f2_log (c18_f2_init, [])).
+Definition c18_f2_charge := Eval vm_compute in
+  hd (mkCh 0 (mkPV 0 0 None 0 0 0 false) 0 0 0 0) (snd (last c18_f2_log (c18_f2_init, []))).
+
+(* REFUTED without the class: in the very block in which the fee comes back (now = the start of the fee
+   in force) the vault is charged the new fee from its deposit in the fee-less period on *)
+Theorem c18_pair_charges_refuted : exists calc ops s0 c,
+  Forall pop_wf ops /\ ps_intr (fst (prun calc c18_f2_init ops)) = false /\
+  In (s0, [c]) (snd (prun calc c18_f2_init ops)) /\
+  ~ charge_legit calc s0 c /\ kf_C18_2 c = true /\
+  ps_now s0 = ps_tchg s0 /\ ps_fee s0 <> 0 /\ ch_from c < ps_tchg s0 /\ 0 < ch_amt c.
+Proof.
+  exists c18_wcalc, c18_f2_history, c18_f2_state, c18_f2_charge.
+  split; [repeat constructor; cbn; lia|]. split; [vm_compute; reflexivity|].
+  split; [apply (nth_error_In _ 7); vm_compute; reflexivity|].
+  split.
+  - intros (_ & [Z0|(A & _)] & _); [vm_compute in Z0; discriminate|]. vm_compute in A. apply A; reflexivity.
+  - vm_compute. repeat split; discriminate.
+Qed.
+Print Assumptions c18_pair_charges_refuted.
+
+(* non-vacuity: on a history with a switch-off, a switch-on and a change between two non-zero fees (vault 0
+   never touched, vault 1 created while the fee is zero) no sweep is interrupted, no vault is in the
+   class, and the steps book non-zero accruals: the sweep of the switch-off, the calculation a day after
+   the fee came back (from the switch-on, not from the switch-off), the sweep of the fee change *)
+Example c18_pair_nonvacuous :
+  let ops := [OCreate 200000000; OAdvance 86400 10; OSetFee 0; OAdvance 8640000 1000; OCreate 5000;
+              OCalc 0; OAdvance 100 1; OSetFee 20000000000000000; OCalc 0; OCalc 1; OAdvance 86400 10; OCalc 0;
+              OAdvance 50 1; OSetFee 50000000000000000] in
+  let r := prun c18_wcalc c18_f2_init ops in
+  Forall pop_wf ops /\ ps_intr (fst r) = false /\
+  forallb (fun e => forallb (fun c => negb (kf_C18_2 c)) (snd e)) (snd r) = true /\
+  map (fun e => map (fun c => (ch_v c, ch_from c, ps_now (fst e) - ch_from c, ch_rate c, ch_amt c)) (snd e)) (snd r) =
+  [[]; []; [(0, 1000, 86400, 20000000000000000, 345600000000000000000000000000)]; []; []; []; []; [];
+   [(0, 8727500, 0, 20000000000000000, 0)]; [(1, 8727500, 0, 20000000000000000, 0)]; [];
+   (* principal = debt + the interest booked so far *)
+   [(0, 8727500, 86400, 20000000000000000, 597542400000000000000000000000000)]; [];
+   [(0, 8813900, 50, 20000000000000000, 200000000000000000000000000); (1, 8727500, 86450, 20000000000000000, 8645000000000000000000000)]].
+Proof. split; [repeat constructor; cbn; lia|]. vm_compute. repeat split. Qed.
+
+(* the premises of c18_pair_zero_fee / _zero_time / _bound are met by the stand-in *)
+Example c18_pair_laws_nonvacuous :
+  (forall t p r x, c18_wcalc t t p r = Ok x -> x = 0) /\
+  (forall now bt p x, c18_wcalc now bt p 0 = Ok x -> x = 0) /\
+  (forall now bt p r x, c18_wcalc now bt p r = Ok x -> 0 <= x) /\
+  (forall now bt bt' p p' r x b, bt' <= bt -> bt <= now -> p <= p' ->
+     c18_wcalc now bt p r = Ok x -> c18_wcalc now bt' p' r = Ok b -> x <= b).
+Proof.
+  unfold c18_wcalc. repeat split.
+  - intros t p r x. rewrite Z.ltb_irrefl, Z.sub_diag. intros E; inversion E; lia.
+  - intros now bt p x. destruct (now <? bt); [discriminate|]. intros E; inversion E. cbn. lia.
+  - intros now bt p r x. destruct (Z.ltb_spec now bt); [discriminate|]. intros E; inversion E.
+    apply Z.mul_nonneg_nonneg; [apply Z.mul_nonneg_nonneg|]; lia.
+  - intros now bt bt' p p' r x b H1 H2 H3. destruct (Z.ltb_spec now bt); [discriminate|].
+    destruct (Z.ltb_spec now bt'); [discriminate|]. intros E1 E2; inversion E1; inversion E2.
+    assert (0 <= Z.max 0 p * Z.max 0 r) by (apply Z.mul_nonneg_nonneg; lia).
+    assert (Z.max 0 p * Z.max 0 r <= Z.max 0 p' * Z.max 0 r) by (apply Z.mul_le_mono_nonneg_r; lia).
+    apply Z.mul_le_mono_nonneg; lia.
+Qed.
